@@ -17,7 +17,7 @@ CLAUSE_PROPERTY = {
     "graph-on-different": "C03", "graph-edge": "C03", "flag-dependencies": "C03",
     # the front door: the warnings are part of both outputs (C13); parser / markers / model of another ISA or
     # architecture than the one named or detected make the analysed kernel a different one (C11)
-    "frontdoor-warning": "C13", "frontdoor-report": "C13", "frontdoor-lcd-timeout": "C05", "frontdoor-": "C11",
+    "frontdoor-warning": "C13", "frontdoor-report": "C13", "frontdoor-": "C11",
 }
 
 
